@@ -19,6 +19,13 @@ CLAIMS = {
    "equals the one-shot result on the concatenation; same for HmacContext (any prior use, any key). Proved by an invariant over update and a refinement from the concrete array/counter model. "
    "Correspondence: operation histories on one C++ object (all two-way splits to 3B+5, multi-way splits with empty chunks, fixed chunk sizes B-1/B/B+1, reuse and abandoned cycles).",
    note="Bounds as C01/C02.", ref="DESIGN.md 7/C03"),
+ "C06": dict(text="Theorems C06_hotp, C06_totp, C06_clock, C06_truncation: the models of get_hotp_code / get_totp_code_at / get_totp_code and detail::hotp_from_digest equal RFC 4226 dynamic truncation of HMAC(key, 8-byte big-endian counter) mod 10^digits "
+   "for every key, every counter below 2^64, digits 1..9 and the three hashes (result < 10^digits and < 2^31); TOTP(t,p) = HOTP(floor(t/p)) for every t < 2^64, p >= 1; the clock form equals the explicit form, negative/failing clock -> runtime_error; "
+   "the shift/mask expression is proved equal to the big-endian value mod 2^31 (disjoint lor = add), the 9-entry divisor table = 10^d. Correspondence on five key-container forms with an interposed clock.",
+   note="Bound: key < 2^61 bytes.", ref="DESIGN.md 7/C06"),
+ "C07": dict(text="Theorems C07_window, C07_clock_form: exact acceptance set of both is_totp_token_valid functions - a token integer (any int) is accepted iff it equals the code of step c, of c-1 when c>0, or of c+1 when c != 2^64-1; "
+   "no cryptographic assumption; no wrap at 0 / 2^64-1. Both copies of the logic are modelled separately. Correspondence: true codes of steps c-3..c+3 (from the extracted spec) and out-of-range integers at counters 0,1,2,2^32,2^64-2,2^64-1, periods 1..INT_MAX, and a clock that ticks between reads.",
+   note="Bound: key < 2^61 bytes.", ref="DESIGN.md 7/C07"),
  "C09": dict(text="Theorem C09_exact: the model of constant_time_equals (loop over max length, implicit zeros, length-mismatch seed) returns true iff the byte lists are equal, for all lengths and contents. "
    "Correspondence: six overloads on length pairs incl. differences of 256k, every single-bit difference position, cancelling differences.",
    note="", ref="DESIGN.md 7/C09"),
